@@ -82,7 +82,7 @@ def check(cx):
         if not cs:
             cx.bad(r1, "no-caller:" + callee, "", "%s has no caller" % callee)
         for c in cs:
-            cx.verdict(c in allowed, r1, "%s<-%s" % (callee.rsplit("::", 1)[-1], c), p.fn(c).where(), "expected caller",
+            cx.verdict(c in allowed, r1, "%s<-%s" % (callee.rsplit("::", 1)[-1], c), p.where_of(c), "expected caller",
                        "a second place builds a snapshot (%s called from %s): a transaction could read through two "
                        "different snapshots" % (callee, c))
     f = cx.guard(r1, "create_child", p.fn, K.CTX + "::create_child")
@@ -169,10 +169,10 @@ def check(cx):
             continue
         cs = K.callers_of(p, callee, set(allowed))
         if not cs:
-            cx.ok(r2, callee + ":no-callers", p.fn(callee).where(), "no production caller")
+            cx.ok(r2, callee + ":no-callers", p.where_of(callee), "no production caller")
         for c in cs:
             owner_ok = callee in DML_PROBES and ((p.fn(c).root or c).startswith("runtime::dml::DmlExecutor::"))
-            cx.verdict(c in allowed or owner_ok, r2, "%s<-%s" % (callee, c), p.fn(c).where(),
+            cx.verdict(c in allowed or owner_ok, r2, "%s<-%s" % (callee, c), p.where_of(c),
                        "allowed: " + allowed.get(c, DML_PROBES.get(callee, "")),
                        "snapshot-unaware `%s` is now called from %s: rows are read without asking the "
                        "transaction's snapshot" % (callee.rsplit("::", 1)[-1], c))
@@ -219,7 +219,7 @@ def check(cx):
     cx.guard(r3, rw, p.fn, rw)
     callers = K.callers_of(p, rw)
     if not callers:
-        cx.bad(r3, "record_write:no-callers", p.fns[rw].where() if rw in p.fns else "",
+        cx.bad(r3, "record_write:no-callers", p.where_of(rw) if rw in p.fns else "",
                "record_write has no production caller: validate_write_set validates an always-empty set, so two "
                "transactions that modify the same row both commit (D4)")
     else:
